@@ -37,14 +37,14 @@ def comp_of(line):
     return "n"
 
 
-def run_sessions(run, sessions, rd_kind="s", need_rd=True, need_lean=True):
+def run_sessions(run, sessions, rd_kind="s", need_rd=True, need_lean=True, need_model=False):
     answers = G.run_exp([s[0] for s in sessions])
     res = []
     rd_lines, idx = [], []
     for si, ans in enumerate(answers):
         p = G.parse_exp_answer(ans)
         comp = comp_of(sessions[si][0])
-        r = {"raw": ans, "results": p[0] if p else None, "outs": p[1] if p else None, "plain": [], "rd": {}, "lean": {}, "comp": comp}
+        r = {"raw": ans, "results": p[0] if p else None, "outs": p[1] if p else None, "plain": [], "rd": {}, "lean": {}, "model": {}, "comp": comp}
         if p:
             for oi, o in enumerate(p[1]):
                 if o == "MISSING" or o.startswith("PART:"):
@@ -57,16 +57,50 @@ def run_sessions(run, sessions, rd_kind="s", need_rd=True, need_lean=True):
         res.append(r)
     rd = G.run_rd(rd_lines) if need_rd else [None] * len(rd_lines)
     lean = G.run_driver(["cdns " + l.split()[2] for l in rd_lines]) if (need_lean and run.driver_ok) else [None] * len(rd_lines)
-    for (si, oi), a, l in zip(idx, rd, lean):
+    # the MODEL of the struct readers/writers (Model.Schema over the block and preamble schemas) on the same bytes
+    model = G.run_driver(["blk " + l.split()[2] for l in rd_lines]) if (need_model and run.driver_ok) else [None] * len(rd_lines)
+    for (si, oi), a, l, m in zip(idx, rd, lean, model):
         res[si]["rd"][oi] = a
         res[si]["lean"][oi] = l
+        res[si]["model"][oi] = m
     return res
+
+
+def judge_model(run, session, r, limit=5):
+    """correspondence of the schema model with the library: the model reader (readVal over filePreamble / block) resolves to the
+    dump the library reader gives, and the model writer reproduces the library's bytes for the value read"""
+    for oi, m in r["model"].items():
+        a = r["rd"].get(oi)
+        if m is None:
+            continue
+        if a is None:
+            # no library read in this check: only the writer correspondence, on files the independent reader accepts
+            lg = r["lean"].get(oi)
+            if lg is None or lg.startswith("S invalid"):
+                continue
+        elif not a.startswith("I F{") or not a.endswith(" EOF"):
+            continue
+        run.count("schema-model: file read+rewritten by the model")
+        body = m[2:].split(" #")[0]
+        if len(run.model_fail) >= limit:
+            return
+        if a is not None and body != a[2:]:
+            run.model_fail.append((session[0][:4000], {"correspondence": "Model.Schema reader (readVal filePreamble / block) vs library reader",
+                                                      "output": oi, "model": m[:1500], "library": a[:1500]}))
+        elif "#rewrite=same" not in m:
+            run.model_fail.append((session[0][:4000], {"correspondence": "Model.Schema writer (writeBytes) does not reproduce the bytes the library wrote",
+                                                      "output": oi, "model": m[-80:], "file": (r["plain"][oi][0] or b"")[:600].hex()}))
+        elif "conforms=yes" not in m:
+            run.model_fail.append((session[0][:4000], {"correspondence": "a value the library wrote lies outside the domain (Conforms) of C01.file_roundtrip",
+                                                      "output": oi, "model": m[-80:], "file": (r["plain"][oi][0] or b"")[:600].hex()}))
+        else:
+            run.count("schema-model: output inside the domain of file_roundtrip (conformsB)")
 
 
 def expected_outputs(ref):
     out = []
     for oi, blocks in enumerate(ref.outputs):
-        out.append(refexp.file_dump(ref.fp, ref.bps[:ref.out_preamble[oi]], blocks) if blocks else None)
+        out.append(refexp.file_dump(ref.fp, ref.out_preamble_bps[oi], blocks) if blocks else None)
     return out
 
 
